@@ -6,7 +6,7 @@ HERE = os.path.dirname(os.path.abspath(__file__))
 CHECKS = {
     "C01": dict(
         cat="exploration", ref="5/C01",
-        text="Seeded search over instances x mask-admitted action schedules x perturbations for the 13 routing environments (MTVRP presets incl. all 16 variants): a float64 reference model of the problem runs alongside the real environment (refinement impl <= model, tick by tick); every admitted action taken must not be must_not for the reference and the final solution must have no problem-level violation. Sampled schedules with adversarial strategies; not exhaustive.",
+        text="Seeded search over instances x mask-admitted action schedules x perturbations for the 13 routing environments (MTVRP presets incl. all 16 variants): a float64 reference model of the problem runs alongside the real environment (refinement impl <= model, tick by tick); every admitted action taken must not be must_not for the reference and the final solution must have no problem-level violation. Sampled schedules with adversarial strategies; not exhaustive. 4% of the runs are MDCPDP with 2-5 depots on hand-supplied per-depot capacities, judged by reading-independent invariants only (customers once, pickup before delivery, orders on board <= capacity).",
         note="Trusted: reference models in rlsim/ref/routing.py (written from the problem definitions), float band tau=1e-5*max(1,scale). MDCPDP under its one-depot reading. Generator instances at small sizes; boundary (equality) instances are exercised by C05.",
         tech="deterministic simulation: seeded adversarial action scheduler + reference-model refinement check"),
     "C02": dict(
@@ -26,7 +26,7 @@ CHECKS = {
         tech="deterministic simulation: reference-model-generated schedules (model-trace) replayed on the real environment"),
     "C06": dict(
         cat="fault_enumeration", ref="5/C06",
-        text="Fault enumeration on recorded solutions: for a base solution (mask-driven episode or reference-built feasible solution, plus padded / no-final-depot shapes) every position x fault-kind single-fault corruption of the action list (drop, duplicate, swap, move, merge routes; for depot-less tours also delete a node / insert a revisit) and instance-side faults (raise demand, shrink window / length limit / skill, lower prize) is enumerated (capped by seeded sampling), each verdict asked once alone and once in a batch next to a companion instance / solution; the checker must accept what the independent problem definition accepts and raise for what it rejects beyond the float band. Covers tsp, atsp, cvrp, cvrptw (scaled/unscaled), sdvrp, svrp, op, pctsp, spctsp, pdp (both start modes), mtvrp presets, tsp_kopt and pdp_ruin_repair (successor-array corruptions).",
+        text="Fault enumeration on recorded solutions: for a base solution (mask-driven episode or reference-built feasible solution, plus padded / no-final-depot shapes) every position x fault-kind single-fault corruption of the action list (drop, duplicate, swap, move, merge routes; for depot-less tours also delete a node / insert a revisit) and instance-side faults (raise demand, shrink window / length limit / skill, lower prize) is enumerated (capped by seeded sampling), each verdict asked once alone and once in a batch next to a companion instance / solution; the checker must accept what the independent problem definition accepts and raise for what it rejects beyond the float band. Covers tsp, atsp, cvrp, cvrptw (scaled/unscaled), sdvrp, svrp, op, pctsp, spctsp, pdp (both start modes), mtvrp presets, tsp_kopt and pdp_ruin_repair (successor-array corruptions). Batches of two mirrored corruptions of one solution (each infeasible alone) must be rejected as well.",
         note="Ground truth = rlsim/ref/routing.py violations() and successor-array validity; verdicts inside the band are skipped; any exception counts as rejection. Exhaustive per base solution up to the cap, sampled over instances and base solutions.",
         tech="deterministic simulation: seeded base histories + exhaustive single-fault injection with independent verdict oracle"),
     "C07": dict(
@@ -41,22 +41,22 @@ CHECKS = {
         tech="deterministic simulation: seeded selection-order scheduler + reference bookkeeping model checked per tick"),
     "C09": dict(
         cat="exploration", ref="5/C09",
-        text="Histories of 20-60 moves on TSPkoptEnv (k=2..6) and PDPRuinRepairEnv (4-10 nodes; one run in twelve 26-30 nodes with several customers at one address) from every mask-admitted move (scheduled), the environments' own random-move sampler, DACT/NeuOpt/N2S policies with random weights and step_to_solution, batch sizes incl. 1, snapshot right after improving moves (aliasing case), mirror batches and another episode reset and moved on the same environment object mid-episode; after every move: single cycle, PDP precedence, cost_current/cost_bsf equal recomputed lengths and the ledger minimum, cost_bsf monotone, reward = decrease, visited_time consistent, built-in checker accepts rec_best.",
+        text="Histories of 20-60 moves on TSPkoptEnv (k=2..6) and PDPRuinRepairEnv (4-10 nodes; one run in twelve 26-30 nodes with several customers at one address) from every mask-admitted move (scheduled), the environments' own random-move sampler, DACT/NeuOpt/N2S policies with random weights and step_to_solution, batch sizes incl. 1, snapshot right after improving moves (aliasing case), mirror batches and another episode reset and moved on the same environment object mid-episode; after every move: single cycle, PDP precedence, cost_current/cost_bsf equal recomputed lengths and the ledger minimum, cost_bsf monotone, reward = decrease, visited_time consistent, built-in checker accepts rec_best. A quarter of the episodes run in TorchRL mode (a move must leave the state it was taken from untouched); every row's move mask inside the batch equals the mask of the same state alone.",
         note="Trusted: rlsim/ref/improvement.py (list-based tours, ledger). k>=3 moves only from the sampler, NeuOpt and step_to_solution (the env has no move mask for k>2).",
         tech="deterministic simulation: seeded move scheduler + ledger/reference tour model checked after every move"),
     "C10": dict(
         cat="exploration", ref="5/C10",
-        text="Real decoding loops (scripted decoder in five logit modes incl. ties/huge/flat, tiny real AM) over 19 real environments with a swarm over temperature, tanh clipping, top-k, top-p and decode types; a tap on process_logits checks every step against a float64 reference (normalised, masked => -inf, argmax kept, <= k kept up to ties, nucleus mass >= p, shift invariance by re-running the recorded step, greedy maximiser, sampled action has positive probability); the knobs the caller configured must be the ones process_logits receives at every step of the rollout; sampler faults (1-3 injected zero-probability draws) must be absorbed by the retry loop within one further clean draw; one run in eighty uses a 130-200 action space with a flat distribution (nucleus mass over all actions).",
+        text="Real decoding loops (scripted decoder in five logit modes incl. ties/huge/flat, tiny real AM) over 19 real environments with a swarm over temperature, tanh clipping, top-k, top-p and decode types; a tap on process_logits checks every step against a float64 reference (normalised, masked => -inf, argmax kept, <= k kept up to ties, nucleus mass >= p, shift invariance by re-running the recorded step, greedy maximiser, sampled action has positive probability); the knobs the caller configured must be the ones process_logits receives at every step of the rollout; sampler faults (1-3 injected zero-probability draws) must be absorbed by the retry loop within one further clean draw; one run in eighty uses a 130-200 action space with a flat distribution (nucleus mass over all actions). A quarter of the scripted runs hand the scores over as a non-contiguous (transposed) view.",
         note="The 'for all real logits' algebra is a pure-function claim; the simulator reaches it only through the values flowing through simulated episodes and under sampler faults (thin for that sub-claim, stated in DESIGN 6). With top-k and top-p both active the nucleus clause is read against the top-k-restricted distribution.",
         tech="deterministic simulation: seeded decoding episodes with process_logits tap + sampler fault injection (bounded-liveness of the retry loop)"),
     "C11": dict(
         cat="exploration", ref="5/C11",
-        text="Record/replay of decoding histories: 24 bundled policy x environment pairs (plus the scripted decoder on all 21 environments) in greedy, sampling, multistart, multi-sample and beam modes: (i) a tap on process_logits recomputes, in float64, the masked and normalised step distribution and the returned log-likelihood must be the sum of the log-probs of the actions actually taken, forced multi-start moves and steps flagged by td['mask'] contributing zero; (ii) feeding the returned actions back in evaluate mode (k-fold expanded batch without num_starts, or num_samples) reproduces per-step log-probs, reward and entropy; (iii) PPO's first inner-step probability ratio is 1 and each mini-batch row carries its own (action, old log-prob) pair; (iv) stepwise PPO for L2D (L2DPolicy4PPO.act/evaluate round trip under scheduled temperature/clipping, and the first-mini-batch ratio of every one of 2-3 consecutive StepwisePPO updates). The zoo includes a NonAutoregressivePolicy/Decoder behind a stub heatmap encoder.",
+        text="Record/replay of decoding histories: 24 bundled policy x environment pairs (plus the scripted decoder on all 21 environments) in greedy, sampling, multistart, multi-sample and beam modes: (i) a tap on process_logits recomputes, in float64, the masked and normalised step distribution and the returned log-likelihood must be the sum of the log-probs of the actions actually taken, forced multi-start moves and steps flagged by td['mask'] contributing zero; (ii) feeding the returned actions back in evaluate mode (k-fold expanded batch without num_starts, or num_samples) reproduces per-step log-probs, reward and entropy; (iii) PPO's first inner-step probability ratio is 1 and each mini-batch row carries its own (action, old log-prob) pair; (iv) stepwise PPO for L2D (L2DPolicy4PPO.act/evaluate round trip under scheduled temperature/clipping, and the first-mini-batch ratio of every one of 2-3 consecutive StepwisePPO updates). The zoo includes a NonAutoregressivePolicy/Decoder behind a stub heatmap encoder. The pointer network also runs with mask_inner=False and tanh_clipping=0.",
         note="MDAM has no evaluate mode (clause (i) only); PolyNet only on slot-preserving replays; MatNet replayed under the same torch seed; top-k/top-p only without forced first moves. Tiny random-weight policies.",
         tech="deterministic simulation: recorded decoding histories replayed in evaluate mode + float64 reference distribution from a logits tap"),
     "C12": dict(
         cat="exploration", ref="5/C12",
-        text="(a) batchify/unbatchify/unbatchify_and_gather on tensors and nested TensorDicts with factor lists (k), (a,s), (r,a,s): row r belongs to instance r mod B, expand-then-inverse is the identity; (b) multi-start / multi-sample rollouts through the real policy loop with the replica-keyed scripted decoder on every environment with a start rule (incl. cross-size environments and OP instances with unreachable customers): forced starts are feasible and pairwise distinct when k feasible starts exist, every row's trajectory equals the solo rollout of instance r mod B with replica r div B, best-of-k returns the instance's own maximum with the actions and log-likelihood of that rollout; (c) POMO / SymNCO shared_step regrouping never mixes instances; (d) real AttentionModel multistart vs solo replication; (e) the real non-autoregressive decoder on one policy object across calls with equal row count but different (B, k): every row reads its own instance's heatmap row; (f) rl4co's AntSystem search (DeepACO/GFACS inference) on a seeded heuristic matrix: the best reward and trail kept per instance across iterations are the instance's own best rollout.",
+        text="(a) batchify/unbatchify/unbatchify_and_gather on tensors and nested TensorDicts with factor lists (k), (a,s), (r,a,s): row r belongs to instance r mod B, expand-then-inverse is the identity; (b) multi-start / multi-sample rollouts through the real policy loop with the replica-keyed scripted decoder on every environment with a start rule (incl. cross-size environments and OP instances with unreachable customers): forced starts are feasible and pairwise distinct when k feasible starts exist, every row's trajectory equals the solo rollout of instance r mod B with replica r div B, best-of-k returns the instance's own maximum with the actions and log-likelihood of that rollout; (c) POMO / SymNCO shared_step regrouping never mixes instances; (d) real AttentionModel multistart vs solo replication; (e) the real non-autoregressive decoder on one policy object across calls with equal row count but different (B, k): every row reads its own instance's heatmap row; (f) rl4co's AntSystem search (DeepACO/GFACS inference) on a seeded heuristic matrix: the best reward and trail kept per instance across iterations are the instance's own best rollout. POMO also with num_augment=0 (no augmentation axis); the batched-vs-solo replica comparison also for L2D on FJSP/JSSP.",
         note="The reference loop re-derives at most 12 rows per run; FFSP trajectories are not re-derived (machine tables live on the environment).",
         tech="deterministic simulation: per-row reproducible scripted peer + solo re-derivation of replicated rollouts"),
     "C13": dict(
